@@ -651,11 +651,19 @@ def _norm(s, order):
     return s.replace("_%s_bin" % order, "_XX_bin").replace("_%s(" % order, "_XX(")
 
 
+# pairs whose two flavours differ by more than the codec, with the rule that decides them instead
+SIBLING_SPECIAL = {
+    "ecdsa_hash_import_be": "the most significant bytes of a little-endian string are its last bytes: the source offset differs (decided by C03 hash-leftmost-bits)",
+}
+
+
 def sibling_rule(rep, u, fns):
     by = {fn.name: fn for fn in fns}
     n = 0
     for name, fn in sorted(by.items()):
         if not name.endswith("_be"):
+            continue
+        if name in SIBLING_SPECIAL and by.get(name[:-3] + "_le") is not None:
             continue
         sib = by.get(name[:-3] + "_le")
         desc = "%s and its _le sibling are the same program up to the byte order of the bignum codec" % name
@@ -756,6 +764,8 @@ def run(rep, tier):
     # key generation maps the seed into [1, n-1] with bn_mod_reduce: a value equal to the modulus is reduced too (C03's rule)
     from props import c03
     c03.reduce_rule(rep, us["ecdsa:default"])
+    # private keys are scalars below the order: the byte API's size limit for them comes from the order (C03's rule)
+    rep.floor("private-key-size functions", c03.order_bytes_rule(rep, us["ecdsa:default"], list(c02.CURVES), what="key"), 4)
     # compressed keys are restored with bn_mod_sqrt: its non-residue search must not give up because the operand is small
     from props import c01
     c01.search_budget_rule(rep, us["ecdsa:default"])
